@@ -693,6 +693,19 @@ def jobs_for(tier):
     nest.sort(key=by_size)
     for pa, po, ca, co in nest:
         jobs.append(("nest", {"cfg": "default", "tree": [cmd(pa, po, s=[cmd(ca, co, d="")])]}, "two", "direct"))
+    # defaults: a command with two sub-commands of which one or both are defaults, each with every argument profile
+    # {nothing, one optional, multi-valued}: which default a help request resolves to depends on what the defaults can
+    # parse, and `help <path>` must still print what `<path> --help` and `<path> -h` print
+    prof = ([], ["opt.s"], ["mul.s"])
+    for pa in ([], ["opt.s"]):
+        for a1 in prof:
+            for a2 in prof:
+                if pa and (a1 or a2) and pa[0].startswith("opt") and False:
+                    continue
+                for m1, m2 in (("default", "default"), ("default", "plain"), ("plain", "default"), ("hiddendefault", "default"),
+                               ("default", "aliased")):
+                    tree = [cmd(pa, [], s=[cmd(a1, [], d="s", m=m1), cmd(a2, ["flag.S.s"], d="s", m=m2)])]
+                    jobs.append(("defaults", {"cfg": "default", "tree": tree}, "two", "both"))
     # trees: every shape x every marking
     for shape in SHAPES3:
         for marks in itertools.product(MARKS, repeat=len(shape)):
